@@ -9,3 +9,4 @@ import MiniconfVerif.Props.C07
 #print axioms MiniconfVerif.C07.list_any_schedule
 #print axioms MiniconfVerif.C07.foreign_topic_ignored
 #print axioms MiniconfVerif.C07.source_handler_is_model
+#print axioms MiniconfVerif.C07.source_iter_list_is_model
